@@ -13,10 +13,12 @@ CLAIMS = {
  "C04": ("proof", "Append handler proved: success implies the consistency check held; every entry of the request is afterwards in the log at its index with its term; the prefix up to prevLogIndex is untouched; appendEntry is only called with index == lastLogIndex+1 (its assert is unreachable). The cross-node induction is assumed.", "4 C04"),
  "C05": ("proof", "The property is per node and per call: proved for every voter state and request (64-bit wrap-around modelled exactly): granted => (term, votedFor) == (req.term, req.src) in memory and on the ghost disk before the reply is produced; the term never decreases; a recorded vote is not replaced within a term; value.set is atomic on the ghost file system (old pair or new pair, never none/both).", "4 C05"),
  "C06": ("proof", "Follower half proved: on every success reply of the append handler everything up to lastLogIndex is flushed (the deferred closure runs on all exits), and the commit index never passes the flushed index. Voter counting: see C02 (majorityMatchIndex). Leader flush-before-advance and the cross-node count are not yet under contract (listed).", "4 C06"),
+ "C07": ("proof", "Decided part proved on the leader: storeEntry handles the tasks of a batch in submission order (rejected with InProgressError iff a transfer is in progress or the leader is no voter; otherwise index == lastLogIndex+1 at that moment and term == the leader's term; log entries are appended in that order, reads and barriers are queued but not appended); applyCommitted releases exactly the queue prefix with index <= commitIndex plus non-log entries at commitIndex+1; release replies every queued entry and waiter exactly once; onApply replies after Update (C03). Linearizability across leader changes, real-time order and the non-leader arm inlined in stateLoop are outside per-call contracts (DESIGN section 5).", "4 C07"),
  "C08": ("proof", "Follower side proved: adopting a configuration entry sets Latest to it and Committed to its predecessor, truncation at or below Latest reverts to Committed, commit promotes Latest; Latest is always the newest configuration entry of the log (loop invariant CfgInLog of the append handler, under PA1). Leader-side rules (one voter delta, commit-ready guard) are being added.", "4 C08"),
  "C11": ("proof", "follower.onTimeout / canStartElection / onTimeoutNowRequest proved: a node campaigns only if it is bootstrapped and a voter of its latest configuration; timeout-now is refused by a non-voter without changing any state; a leader that commits a configuration in which it is no voter steps down; ErrNodeRemoved shutdown only after that configuration is committed; non-voters are never counted by majorityMatchIndex.", "4 C11"),
  "C13": ("proof", "Segment level proved byte-exactly against the representation invariant SegInv (offset table monotone, size == last offset, data below the table): at/offset/setOffset/lastIndex/available/get/append/removeGTE. Log level proved for the read-only operations over a ghost segment set (PrevIndex, LastIndex, Count, Contains, segment, Get, ViewAt). CommitN is a bounded stand-in (at most 2 segments visited). Append roll-over, RemoveLTE/GTE, Reset, GetN, Open are not yet under contract.", "4 C13"),
  "C14": ("proof", "Power-loss model (ghost durable image per file, T-mmap): crash invariants proved at every program point of segment.append, sync and removeGTE: whichever header value reaches the disk, everything it exposes is durable and equal to memory; sync writes the header only after the data flush; after a completed sync/removeGTE the durable header equals the in-memory count. CommitN: bounded stand-in. Recovery (openSegments) not yet under contract.", "4 C14"),
+ "C16": ("proof", "Proved: validateTransfer returns each error iff its condition; onTransfer records the leader's term and arms the timer; tryTransfer starts a timeout-now request only for a target other than itself that is a voter of the latest configuration, reachable and with matchIndex == lastLogIndex; storeEntry rejects client entries while a transfer is in progress; transfer.reply stops both timers and clears the response channel; leader.release answers the transfer with success only if the term is higher than the one recorded at the start. That the cluster keeps/elects a leader after a failed transfer is liveness (DESIGN section 5).", "4 C16"),
  "C17": ("proof", "Leader-stability clause proved on onVoteRequest (a non-transfer request from a node other than the known leader is refused and changes nothing) and on the append handler (a stale-term request changes nothing). The liveness sentence of C17 is not decidable by contracts (DESIGN section 5).", "4 C17"),
  "C19": ("proof", "Ordering clauses proved as postconditions of the vote, append and timeout-now handlers and the config/commit helpers: term and commit index never decrease; snapshot index <= commit index <= last log index; log well-formedness (LogWF) preserved. Other handlers are being added.", "4 C19"),
  "C03": ("proof", "onApply proved with loop invariants: the FSM index advances by exactly one per applied entry, updates are passed to the user FSM in index order without gaps and at most once, non-update entries are skipped, the three internal asserts are unreachable given the channel invariant on fsmApply messages (stated as named preconditions PA-ch.*); onRestoreReq sets the applied index/term to the restored snapshot's label or leaves them unchanged on failure. Agreement across nodes composes C02+C04 (assumed); FIFO order between the raft and FSM goroutines is T-go.", "4 C03"),
